@@ -229,20 +229,12 @@ def bound(ctx, crate):
             ctx.ok(rule, fn, "Ok dominated by size-limit test", site=body.loc(body.blocks[guards[0][0]]["t"].get("sp")))
         # completeness: Ok only if stream_len >= frame_length
         comp = False
-        for bi, b in enumerate(body.blocks):
-            t = b["t"]
-            if t["k"] != "switch" or b.get("cleanup"):
-                continue
-            l = op_local(t["on"])
-            d = single_def(body, l) if l is not None else None
-            if not d or d[2] != "assign" or d[3]["rv"]["k"] != "bin" or d[3]["rv"]["op"] != "Lt":
-                continue
-            sb = flatten_src(provenance(body, d[3]["rv"]["b"]))
-            sa = flatten_src(provenance(body, d[3]["rv"]["a"]))
-            if any(s.kind == "call" and s.path.endswith("frame_length") for s in sb) and any(s.kind == "call" and s.path.endswith("::len") for s in sa):
-                zero_t = [x for v, x in t["targets"] if v == 0]
-                if zero_t and not (reachable(body, (0,), avoid_edges=[(bi, zero_t[0])]) & set(ok_blocks)):
-                    comp = True
+        is_len = lambda ss: any(s.kind == "call" and s.path.endswith("::len") for s in ss)
+        is_fl = lambda ss: any(s.kind == "call" and s.path.endswith("frame_length") for s in ss)
+        for sbb, holds, fails, _ in cmp_switches(body, ("Lt",), is_len, is_fl):
+            # `stream_len < frame_length` holds → not complete; Ok only on the other edge
+            if not (reachable(body, (0,), avoid_edges=[(sbb, fails)]) & set(ok_blocks)):
+                comp = True
         if comp:
             ctx.ok(rule, fn, "Ok dominated by completeness test (stream_len >= frame_length)")
         else:
